@@ -148,7 +148,7 @@ def judge_pair(name1, s1, name2, s2, N, out):
             return
 
 
-def upword_specs(rnd):
+def upword_specs(rnd, pad=False):
     """a group of specifications from the U-pword universe with relabelling strategies (one- and two-way), so that equivalence
     paths of several steps with non-identity object maps occur: a class, the same class through another database / seed,
     its image under a relabelling of the alphabet, an unrelated class"""
@@ -161,6 +161,13 @@ def upword_specs(rnd):
     perm = list(al)
     rnd.shuffle(perm)
     t = str.maketrans(al, "".join(perm))
+    if pad:
+        base.update(rot="pad", alpha="abc")
+        base["patterns"] = upword.rand_patterns(rnd, "abc", 3, 2)
+        al = base["alpha"]
+        perm = list(al)
+        rnd.shuffle(perm)
+        t = str.maketrans(al, "".join(perm))
     variants = [base,
                 dict(base, seed=rnd.randrange(10**6), db=rnd.choice(["RuleDB", "RuleDBForgetStrategy"]), perc=rnd.choice([100, 20, 1])),
                 dict(base, patterns=sorted(p.translate(t) for p in base["patterns"]), seed=rnd.randrange(10**6)),
@@ -296,6 +303,11 @@ def worker(args):
             if rnd.random() < 0.4:
                 specs += upword_specs(rnd)
             xr = random.Random(seed * 1009 + out["specs"])  # its own stream: the groups above keep theirs
+            if xr.random() < 0.35:  # relabellings padded with an empty first child: the equivalence's non-empty child is child 1
+                pads = upword_specs(random.Random(xr.randrange(10**9)), pad=True)
+                out["specs"] += len(pads)
+                for (n1, a), (n2, b) in itertools.combinations(pads, 2):
+                    judge_pair(n1, a, n2, b, min(N, 5), out)
             dots = dot_specs(random.Random(xr.randrange(10**9))) if xr.random() < 0.5 else []
             out["specs"] += len(specs)
             for name, sp in specs:
